@@ -206,6 +206,10 @@ def run_once(cfg, seed, reuse, label, nest=False):
             obj[:] = np.nan                 # every realization fails in this evaluation
         h.update(obj.tobytes())
         con = None if not hascon else (x[:, :1] + x[:, 1:2] * x[:, 2:3] + 0.125 * context.realizations[:, None]) * np.arange(1.0, ncon + 1.0)
+        # (the context's arrays are the user's to recycle: here they are overwritten after use)
+        for arr in (context.realizations, context.perturbations):
+            if arr is not None and arr.flags.writeable:
+                arr[...] = 99
         return EvaluatorResult(objectives=obj, constraints=con)
 
     def finished(event):
